@@ -12,7 +12,6 @@ VERIF = os.path.dirname(os.path.dirname(os.path.abspath(__file__)))
 NA = {
     'C05': 'thread schedules: Kani has no thread support, Verus would need the code rewritten onto its permission types',
     'C06': 'thread schedules between reader open and compaction cleanup; not expressible as a per-call contract',
-    'C23': 'histories of async axum handlers; a caller-side argument would rest entirely on assumed IndexWriter contracts',
     'C24': 'server behaviour under arbitrary requests, panics across spawn_blocking; no per-call contract within reach',
     'C25': 'cross-front-end equivalence of whole programs (CLI process, HTTP server, FFI) is not a function contract',
     'C27': 'async task and IndexedDB orderings, wasm32 only; no verifier here targets wasm32/JS interop',
